@@ -909,6 +909,9 @@ func (e *Env) call(c *ECall) TV {
 		a := e.toTerm(e.eval(c.Args[0]))
 		b := e.toTerm(e.eval(c.Args[1]))
 		return TV{UF(SB, "str.contains", a, b), boolT}
+	case "lastindex", "strindex":
+		uf := map[string]string{"lastindex": "str.lastindex", "strindex": "str.index"}[c.Fn]
+		return TV{UF(SI, uf, e.toTerm(e.eval(c.Args[0])), e.toTerm(e.eval(c.Args[1]))), types.Typ[types.Int]}
 	case "substr":
 		return TV{UF(SI, "str.sub", e.toTerm(e.eval(c.Args[0])), e.intTerm(c.Args[1]), e.intTerm(c.Args[2])), types.Typ[types.String]}
 	case "trimspace", "toupper", "tolower":
